@@ -233,6 +233,7 @@ func RunHIST(t testingT, p *Program, hooks func(e *Env)) (res *Result) {
 	if e.Led != nil {
 		res.Probes["ledger:states"] = len(e.Led.States)
 		res.Probes["ledger:wal_generations"] = e.Led.Generations
+		res.Probes["ledger:gaps"] = e.Led.Gaps
 	}
 	if e.App != nil {
 		res.Probes["app:commits"] = e.App.Commits
